@@ -169,6 +169,8 @@ pub struct CaseCtx<'a> {
     pub known: &'a KnownFindings,
     /// Strict mode (replay of a witness): known findings are not tolerated.
     pub strict: bool,
+    /// Witness replay: every known finding is tolerated except this one signature.
+    pub except: Option<String>,
     pub tier: Tier,
     excluded: RefCell<Vec<String>>,
 }
@@ -179,6 +181,7 @@ impl<'a> CaseCtx<'a> {
             property,
             known,
             strict,
+            except: None,
             tier,
             excluded: RefCell::new(Vec::new()),
         }
@@ -187,7 +190,7 @@ impl<'a> CaseCtx<'a> {
     /// counted as excluded. Oracles use it to skip exactly the matching sub-check so that the
     /// rest of the case is still judged.
     pub fn tolerate(&self, sig: &str) -> bool {
-        if !self.strict && self.known.is_known(self.property, sig) {
+        if !self.strict && self.except.as_deref() != Some(sig) && self.known.is_known(self.property, sig) {
             self.excluded.borrow_mut().push(sig.to_string());
             true
         } else {
@@ -196,7 +199,7 @@ impl<'a> CaseCtx<'a> {
     }
     /// Like `tolerate` but without counting (for generators that avoid a sub-domain).
     pub fn is_known(&self, sig: &str) -> bool {
-        !self.strict && self.known.is_known(self.property, sig)
+        !self.strict && self.except.as_deref() != Some(sig) && self.known.is_known(self.property, sig)
     }
     pub fn take_excluded(&self) -> Vec<String> {
         std::mem::take(&mut *self.excluded.borrow_mut())
@@ -241,7 +244,7 @@ pub fn truncate_json(v: serde_json::Value, max: usize) -> serde_json::Value {
 pub trait DynFamily: Sync + Send {
     fn name(&self) -> &'static str;
     fn run_cases(&self, rc: &RunCtx, property: &str, cases: u32) -> FamilyReport;
-    fn replay_json(&self, rc: &RunCtx, property: &str, case: &serde_json::Value) -> Result<CaseResult, String>;
+    fn replay_json(&self, rc: &RunCtx, property: &str, case: &serde_json::Value, except: Option<&str>) -> Result<CaseResult, String>;
 }
 
 pub struct RunCtx {
@@ -344,9 +347,11 @@ impl<F: Family> DynFamily for F {
         Family::name(self)
     }
 
-    fn replay_json(&self, rc: &RunCtx, property: &str, case: &serde_json::Value) -> Result<CaseResult, String> {
+    fn replay_json(&self, rc: &RunCtx, property: &str, case: &serde_json::Value, except: Option<&str>) -> Result<CaseResult, String> {
         let case: F::Case = serde_json::from_value(case.clone()).map_err(|e| format!("cannot decode case: {e}"))?;
-        let cx = CaseCtx::new(property, &rc.known, true, rc.tier);
+        // plain replay: strict (nothing tolerated); witness replay: only the witness' own signature is armed
+        let mut cx = CaseCtx::new(property, &rc.known, except.is_none(), rc.tier);
+        cx.except = except.map(|s| s.to_string());
         Ok(run_guarded(self, &case, &cx))
     }
 
@@ -665,7 +670,7 @@ pub fn run_property(rc: &RunCtx, prop: &Property) -> PropertyResult {
             continue;
         };
         let path = rc.verif_dir.join(w);
-        match replay_file(rc, prop, &path) {
+        match replay_file_except(rc, prop, &path, f.signature.as_deref()) {
             Ok(Err(fail)) => {
                 if Some(fail.sig.as_str()) == f.signature.as_deref() {
                     println!("KNOWN-FINDING: property={} {} [sig={}]", prop.id, f.what, fail.sig);
@@ -719,6 +724,10 @@ pub fn run_property(rc: &RunCtx, prop: &Property) -> PropertyResult {
 }
 
 pub fn replay_file(rc: &RunCtx, prop: &Property, path: &Path) -> Result<CaseResult, String> {
+    replay_file_except(rc, prop, path, None)
+}
+
+pub fn replay_file_except(rc: &RunCtx, prop: &Property, path: &Path, except: Option<&str>) -> Result<CaseResult, String> {
     let s = std::fs::read_to_string(path).map_err(|e| format!("{e}"))?;
     let rf: ReplayFile = serde_json::from_str(&s).map_err(|e| format!("{e}"))?;
     if rf.property != prop.id {
@@ -726,7 +735,7 @@ pub fn replay_file(rc: &RunCtx, prop: &Property, path: &Path) -> Result<CaseResu
     }
     for (fam, _, _) in &prop.families {
         if fam.name() == rf.family {
-            return fam.replay_json(rc, prop.id, &rf.case);
+            return fam.replay_json(rc, prop.id, &rf.case, except);
         }
     }
     Err(format!("no family {} in {}", rf.family, prop.id))
